@@ -94,6 +94,15 @@ pub fn check_cleanup(text: &str) -> Result<Vec<CV>, String> {
             }
         }
     }
+    // (1b) all of them: a COMPU_METHOD, conversion table, UNIT or RECORD_LAYOUT that remains is referred to by something that
+    // remains (for GROUPs and FUNCTIONs what counts as unreferenced also depends on their content: covered by idempotence)
+    for a in after.elems.iter().filter(|e| matches!(e.ns, Some(Ns::CompuMethod) | Some(Ns::Tab) | Some(Ns::Unit) | Some(Ns::RecordLayout))) {
+        let ns = a.ns.unwrap();
+        let referred = after.elems.iter().any(|o| !(o.ns == Some(ns) && o.name == a.name && o.kind == a.kind) && o.edges.iter().any(|ed| ed.ns == ns && ed.target == a.name));
+        if !referred {
+            out.push(CV { oracle: "unreferenced-helper-kept", detail: a.kind.clone(), what: format!("{} {} remains although nothing that remains refers to it", a.kind, a.name) });
+        }
+    }
     for a in after.elems.iter().filter(|e| e.ns.is_some()) {
         if before.get(a.ns.unwrap(), &a.name).is_empty() {
             out.push(CV { oracle: "element-invented", detail: a.kind.clone(), what: format!("{} {} appears after cleanup", a.kind, a.name) });
@@ -306,6 +315,59 @@ pub fn build(g: &Grammar, thorough: bool) -> Vec<Case10> {
         ];
         out.push(Case10 { label: "one referrer per kind with every usage position populated by a different helper".into(), family: "usage-pairs".into(), text: file_text(g, "m", &elems) });
     }
+    // ---- E2: an INSTANCE with one OVERWRITE per axis, each with its own CONVERSION; counts of used / unused helpers and of
+    // dangling references in every combination 0..2 (coincidences between such counts must not matter)
+    {
+        let inst = e("INSTANCE", "I", "c1")
+            .set("type_ref", "TS")
+            .kid(ks("OVERWRITE", &[("name", "ov"), ("axis_number", "0")]).with(ks("CONVERSION", &[("name", "CMA")])))
+            .kid(ks("OVERWRITE", &[("name", "ov"), ("axis_number", "1")]).with(ks("CONVERSION", &[("name", "CMB")])))
+            .kid(ks("OVERWRITE", &[("name", "ov2"), ("axis_number", "1")]).with(ks("CONVERSION", &[("name", "CMC")])));
+        let elems = vec![e("COMPU_METHOD", "CMA", "c1"), e("COMPU_METHOD", "CMB", "c1").kid(ks("REF_UNIT", &[("unit", "UB")])), e("COMPU_METHOD", "CMC", "c1"), e("UNIT", "UB", "c1"), e("TYPEDEF_STRUCTURE", "TS", "c1"), inst];
+        out.push(Case10 { label: "INSTANCE with three OVERWRITE blocks, each naming its own COMPU_METHOD".into(), family: "usage-pairs".into(), text: file_text(g, "m", &elems) });
+        for kind in ["RECORD_LAYOUT", "COMPU_METHOD", "COMPU_VTAB", "UNIT", "FUNCTION"] {
+            for used in 0..3usize {
+                for unused in 0..3usize {
+                    for dangling in 0..3usize {
+                        let mut elems: Vec<ESpec> = vec![e("MEASUREMENT", "M", "c1")];
+                        let helper = |name: &str| {
+                            let h = e(kind, name, "c1");
+                            if kind == "FUNCTION" {
+                                h.kid(kl("IN_MEASUREMENT", &["M"]))
+                            } else {
+                                h
+                            }
+                        };
+                        // a user of helper `target` (its own helpers are in use)
+                        let user = |i: usize, target: &str, elems: &mut Vec<ESpec>| match kind {
+                            "RECORD_LAYOUT" => elems.push(e("CHARACTERISTIC", &format!("C{i}_{target}"), "c1").set("deposit", target)),
+                            "COMPU_METHOD" => elems.push(e("MEASUREMENT", &format!("M{i}_{target}"), "c1").set("conversion", target)),
+                            "COMPU_VTAB" => {
+                                elems.push(e("COMPU_METHOD", &format!("CM{i}_{target}"), "c1").kid(ks("COMPU_TAB_REF", &[("conversion_table", target)])));
+                                elems.push(e("MEASUREMENT", &format!("M{i}_{target}"), "c1").set("conversion", &format!("CM{i}_{target}")));
+                            }
+                            "UNIT" => {
+                                elems.push(e("COMPU_METHOD", &format!("CM{i}_{target}"), "c1").kid(ks("REF_UNIT", &[("unit", target)])));
+                                elems.push(e("MEASUREMENT", &format!("M{i}_{target}"), "c1").set("conversion", &format!("CM{i}_{target}")));
+                            }
+                            _ => elems.push(e("MEASUREMENT", &format!("M{i}_{target}"), "c1").kid(kl("FUNCTION_LIST", &[target]))),
+                        };
+                        for i in 0..used {
+                            elems.push(helper(&format!("USED{i}")));
+                            user(i, &format!("USED{i}"), &mut elems);
+                        }
+                        for i in 0..unused {
+                            elems.push(helper(&format!("UNUSED{i}")));
+                        }
+                        for i in 0..dangling {
+                            user(10 + i, &format!("NOPE{i}"), &mut elems);
+                        }
+                        out.push(Case10 { label: format!("{kind}: {used} used, {unused} unused, {dangling} dangling references"), family: "helper-counts".into(), text: file_text(g, "m", &elems) });
+                    }
+                }
+            }
+        }
+    }
     // ---- F: a second module behind the module under test. It uses the same names, every helper in it is in use, and one name
     // that is unused in many first modules (X) is used there: nothing computed for one module may decide about another, and the
     // second module has to come out unchanged
@@ -372,7 +434,7 @@ pub fn run(tier: &str) -> Run {
     run.require("function-graph: ok", 1000);
     run.require("unit-chain: ok", 100);
     run.require("usage-position: ok", 50);
-    run.rule = "all 3-node GROUP graphs (every SUB_GROUP relation) x per-group content {empty, valid, dangling, AXIS_PTS} x ROOT x USER_RIGHTS subsets; all 3-node FUNCTION graphs x content x users through FUNCTION_LIST; all REF_UNIT functions on 3 UNITs x which units are used; every usage position of a helper kind as the only user x {used, unused, dangling, used only by a helper that is itself removable} x target kind. Oracle: removed elements are helpers, objects/typedefs equal modulo previously dangling references, nothing that remains refers to a removed element, a check()-clean file stays clean, cleanup twice == once (text), cleaned file reloads equal.".into();
+    run.rule = "all 3-node GROUP graphs (every SUB_GROUP relation) x per-group content {empty, valid, dangling, AXIS_PTS} x ROOT x USER_RIGHTS subsets; all 3-node FUNCTION graphs x content x users through FUNCTION_LIST; all REF_UNIT functions on 3 UNITs x which units are used; every usage position of a helper kind as the only user x {used, unused, dangling, used only by a helper that is itself removable} x target kind. Oracle: removed elements are helpers, every remaining COMPU_METHOD / conversion table / UNIT / RECORD_LAYOUT is referred to by something that remains, objects/typedefs equal modulo previously dangling references, nothing that remains refers to a removed element, a check()-clean file stays clean, cleanup twice == once (text), cleaned file reloads equal.".into();
     run
 }
 
